@@ -49,7 +49,10 @@ Inductive case :=
         (errors : list bool) (tables : list str)
 | CEvo (dc : decl) (keep : list str) (rows : list (list Z)) (ops : list evo_op) (steps : list evostep)
 | CIdem (a b : decl) (ops : list (nat * bool * bool))          (* 0 create / 1 drop / 2 raw DROP TABLE, class a?, if-flag *)
-        (steps : list (bool * list str * list str)).
+        (steps : list (bool * list str * list str))
+(* a foreign table `decoy` is created out of band first; then class a: createTable(ifNotExists=True)
+   twice, dropTable(ifExists=True) twice *)
+| CDecoy (a b : decl) (decoy : str) (steps : list (bool * list str * list str)).
 
 (* ---------- equalities *)
 Definition toks_eqb := list_eqb tok_eqb.
@@ -241,4 +244,10 @@ Definition agree (c : case) : bool :=
       list_eqb (fun x y => Bool.eqb (fst (fst x)) (fst (fst y)) && same_set (snd (fst x)) (snd (fst y))
                            && same_set (snd x) (snd y))
                (idem_views a b {| db_tables := []; db_indexes := [] |} ops) steps
+  | CDecoy a b decoy steps =>
+      list_eqb (fun x y => Bool.eqb (fst (fst x)) (fst (fst y)) && same_set (snd (fst x)) (snd (fst y))
+                           && same_set (snd x) (snd y))
+               (idem_views a b (fst (eng_create {| db_tables := []; db_indexes := [] |} decoy [s2l "zz"]))
+                  [(0%nat, true, true); (0%nat, true, true); (1%nat, true, true); (1%nat, true, true)])
+               steps
   end.
